@@ -161,8 +161,14 @@ type vNodeOpts struct {
 	Dir       string // reused on restart
 	Addr      string // "127.0.0.1:port" to re-listen on after a restart; "" = any port
 	Creds     *credStore
+	CredsAA   aaStore // when set, used instead of Creds (e.g. the real auth.CredentialsStore)
 	Configure func(*store.Store)
 	NoHTTP    bool
+}
+
+// aaStore is what both the HTTP service and the cluster service ask of a credential store.
+type aaStore interface {
+	AA(username, password, perm string) bool
 }
 
 type vNode struct {
@@ -264,6 +270,9 @@ func startNode(nw *vnet, o vNodeOpts) (*vNode, error) {
 	if o.Creds != nil {
 		ccreds, hcreds = o.Creds, o.Creds
 	}
+	if o.CredsAA != nil {
+		ccreds, hcreds = o.CredsAA, o.CredsAA
+	}
 	cl := cluster.New(mux.Listen(cluster.MuxClusterHeader), s, s, ccreds)
 	if err := cl.Open(); err != nil {
 		return nil, err
@@ -326,6 +335,7 @@ type vClusterOpts struct {
 	NonVoters int
 	Base      string // directory under which node dirs are created
 	Creds     *credStore
+	CredsAA   aaStore
 	Configure func(*store.Store)
 	NoHTTP    bool
 }
@@ -339,7 +349,7 @@ func newCluster(o vClusterOpts) (*vCluster, error) {
 		if err := os.MkdirAll(dir, 0755); err != nil {
 			return nil, err
 		}
-		n, err := startNode(c.nw, vNodeOpts{ID: id, Dir: dir, Creds: o.Creds, Configure: o.Configure, NoHTTP: o.NoHTTP})
+		n, err := startNode(c.nw, vNodeOpts{ID: id, Dir: dir, Creds: o.Creds, CredsAA: o.CredsAA, Configure: o.Configure, NoHTTP: o.NoHTTP})
 		if err != nil {
 			c.Close()
 			return nil, err
